@@ -189,8 +189,12 @@ void run_script_body(int tid) {
 }
 
 // one execution: scripts chosen by the first choices, then every schedule
+// mode-switching history before the threads start (sections "*m"): the thread-safe table must be in force however it was reached
+bool g_mode_histories = false;
+const char* PRELUDE[] = {"on", "on,save/restore bracket", "on,off,on", "on,on", "save/restore bracket,on"};
 void scenario(Chooser& ch, int nthreads, int nscripts, int bound) {
     ch.c.reserve(256); ch.n.reserve(256);
+    int prelude = g_mode_histories ? 1 + ch.choose(4) : 0;
     int sidx[sched::MAXT];
     for (int i = 0; i < nthreads; i++) sidx[i] = ch.choose(nscripts);
     arena_reset();
@@ -210,7 +214,11 @@ void scenario(Chooser& ch, int nthreads, int nscripts, int bound) {
     setCurrentNewAllocator(&g_new_alloc); setCurrentNewArrayAllocator(&g_arr_alloc); setCurrentMallocAllocator(&g_mal_alloc);
     void* (*saved_realloc)(void*, size_t) = PlatformSpecificRealloc;
     PlatformSpecificRealloc = arena_realloc;
+    if (prelude == 4) { MemoryLeakWarningPlugin::saveAndDisableNewDeleteOverloads(); MemoryLeakWarningPlugin::restoreNewDeleteOverloads(); }
     MemoryLeakWarningPlugin::turnOnThreadSafeNewDeleteOverloads();
+    if (prelude == 1) { MemoryLeakWarningPlugin::saveAndDisableNewDeleteOverloads(); MemoryLeakWarningPlugin::restoreNewDeleteOverloads(); }
+    if (prelude == 2) { MemoryLeakWarningPlugin::turnOffNewDeleteOverloads(); MemoryLeakWarningPlugin::turnOnThreadSafeNewDeleteOverloads(); }
+    if (prelude == 3) MemoryLeakWarningPlugin::turnOnThreadSafeNewDeleteOverloads();
     cpputest_verif_point = h1_point;
     // ---- no harness allocation through operator new from here ...
     bool finished = sched::run(ch, nthreads, bound);
@@ -223,6 +231,7 @@ void scenario(Chooser& ch, int nthreads, int nscripts, int bound) {
     std::string desc;
     for (int i = 0; i < nthreads; i++) { desc += (i ? " | " : ""); desc += g_tc[i].script; }
     desc += vf::fmt(" ; bound=%d preemptions=%d switches=%ld", bound, sched::S.preemptions, sched::S.switches);
+    if (prelude) desc += vf::fmt(" ; mode history before the threads: %s", PRELUDE[prelude]);
 
     // (1) lockset
     if (g_lockset_violations) vf::fail("lockset/unprotected-access", desc + vf::fmt(": detector state touched at '%s' without owning the detector mutex while %d threads were live (%d such points)", g_lockset_tag, nthreads, g_lockset_violations));
@@ -355,15 +364,15 @@ int main(int argc, char** argv) {
     { size_t b = (size_t)g_arena; b = (b + 63) & ~(size_t)63; while (b % HASH_PRIME) b += 64; g_base = (char*)b; }
     bool T = vf::thorough();
     vf::info("rule", "every schedule (choice of the next enabled thread at each modelled-mutex operation and at each unprotected detector access) of real threads running allocation scripts through the thread-safe wrappers, up to the preemption bound; all blocks forced into one hash bucket; non-trivial = schedule with >= 1 preemption");
-    struct Cfg { const char* name; int threads, scripts, bound; bool inside; bool misuse; };
-    const Cfg quick[] = { {"sched2", 2, NSCRIPTS_T, 3, false, false}, {"sched3", 3, 5, 2, false, false}, {"sched2in", 2, 5, 2, true, false}, {"sched2x", 2, NXSCRIPTS, 2, true, true} };
+    struct Cfg { const char* name; int threads, scripts, bound; bool inside; bool misuse; bool modes = false; };
+    const Cfg quick[] = { {"sched2", 2, NSCRIPTS_T, 3, false, false}, {"sched3", 3, 5, 2, false, false}, {"sched2in", 2, 5, 2, true, false}, {"sched2x", 2, NXSCRIPTS, 2, true, true}, {"sched2m", 2, NSCRIPTS_T, 1, false, false, true} };
     const Cfg thor[]  = { {"sched2", 2, NSCRIPTS_T, 5, false, false}, {"sched3", 3, 6, 3, false, false}, {"sched4", 4, 3, 2, false, false}, {"sched2in", 2, NSCRIPTS_T, 3, true, false}, {"sched3in", 3, 3, 2, true, false},
-                          {"sched2x", 2, NXSCRIPTS, 3, true, true}, {"sched3x", 3, 4, 1, true, true} };
-    const Cfg* cfgs = T ? thor : quick; int ncfg = T ? 7 : 4;
+                          {"sched2x", 2, NXSCRIPTS, 3, true, true}, {"sched3x", 3, 4, 1, true, true}, {"sched2m", 2, NSCRIPTS_T, 2, false, false, true} };
+    const Cfg* cfgs = T ? thor : quick; int ncfg = T ? 8 : 5;
     for (int k = 0; k < ncfg; k++) {
         Cfg c = cfgs[k];
-        vf::info(std::string(c.name) + ".bound", vf::fmt("%d threads, all %d^%d script tuples over {ND,Aa,MF,MRF,rRF,N,NNDD,AMaF,MR,NDND,r,nD,ba,dD,ea}[0..%d) (r = realloc(NULL,n); n,b = nothrow new/new[]; d,e = new/new[] with file and line), preemption bound %d%s%s", c.threads, c.scripts, c.threads, c.scripts, c.bound, c.inside ? ", scheduling points also at every detector observation point inside the critical section" : "", c.misuse ? "; script table {ND,MF,X,MXF,NXD,MR,rF} where X is a misuse (free of a never allocated address) reported through the real reporter" : ""));
-        vf::section_dfs(c.name, c.threads, false, [&](Chooser& ch) { g_detector_mutex = nullptr; g_preempt_inside = c.inside; g_script_table = c.misuse ? XSCRIPTS : SCRIPTS; scenario(ch, c.threads, c.scripts, c.bound); g_preempt_inside = false; });
+        vf::info(std::string(c.name) + ".bound", vf::fmt("%d threads, all %d^%d script tuples over {ND,Aa,MF,MRF,rRF,N,NNDD,AMaF,MR,NDND,r,nD,ba,dD,ea}[0..%d) (r = realloc(NULL,n); n,b = nothrow new/new[]; d,e = new/new[] with file and line), preemption bound %d%s%s", c.threads, c.scripts, c.threads, c.scripts, c.bound, c.inside ? ", scheduling points also at every detector observation point inside the critical section" : "", c.misuse ? "; script table {ND,MF,X,MXF,NXD,MR,rF} where X is a misuse (free of a never allocated address) reported through the real reporter" : "") + (c.modes ? "; x 4 mode-switching histories before the threads start {on + save/restore bracket, on/off/on, on twice, bracket then on}" : ""));
+        vf::section_dfs(c.name, c.threads, false, [&](Chooser& ch) { g_detector_mutex = nullptr; g_preempt_inside = c.inside; g_script_table = c.misuse ? XSCRIPTS : SCRIPTS; g_mode_histories = c.modes; scenario(ch, c.threads, c.scripts, c.bound); g_preempt_inside = false; });
         vf::require_outcomes(c.name, 20);
     }
     {
